@@ -302,10 +302,10 @@ func c09Scenarios(thorough bool) []c09Scn {
 	var out []c09Scn
 	for _, kind := range []string{"tcp", "dynamic"} {
 		for _, pxy := range []bool{false, true} {
-			if kind == "dynamic" && pxy {
-				continue // the dynamic proxy has no PROXY protocol option
-			}
 			for si, sp := range splits {
+				if kind == "dynamic" && pxy && si != 0 && si != 3 {
+					continue // pxyproto=true is an option of the target, whichever listener the connection came in by; two segmentations are enough here
+				}
 				for _, ce := range []string{"open", "half", "close"} {
 					for _, ra := range []int{0, len(payload), -1} {
 						for ri, rp := range replies {
